@@ -1922,41 +1922,65 @@ def rule_OH(run: Run) -> RuleResult:
                     and not any(k.arg == "key" and isinstance(k.value, ast.Name) and k.value.id in ("str", "repr") for k in x.keywords):
                 res.add(f"{q}:orders a value looked up in the options", False, m.relpath, x.lineno,
                         f"{ast.unparse(x)[:50]}: `{x.args[0].id}` comes from the options dictionary and may hold anything JSON allows", nec)
-    # a __repr__ never fails: reprs are embedded in every error message of the library (CacheGetFailure, EvaluationError)
-    for ci in repo.classes.values():
-        if ci.module.name.startswith("labrea.mypy"):
+    # a __repr__ and a message builder never fail: reprs are embedded in every error message of the library (CacheGetFailure,
+    # EvaluationError) and messages are built on the error path.  __name__ / __qualname__ exist on classes and plain functions
+    # only — partial objects, callable instances, operator helpers and typing constructs (int | None, Optional[int], List[int])
+    # have none — so they are read from a class (cls, type(x), x.__class__, a decorated class handed in as a parameter
+    # annotated Type[...]), or behind hasattr / getattr-with-default / except AttributeError
+    n_names = 0
+    for m, cls_node, hfn, q in iter_functions(repo):
+        if m.name.startswith("labrea.mypy"):
             continue
-        for mn, fn in ci.methods.items():
-            if mn not in ("__repr__", "__str__"):
+        ci = repo.classes.get(f"{m.name}.{cls_node.name}") if cls_node is not None else None
+        guarded = {ast.unparse(x.args[0]) for x in ast.walk(hfn) if isinstance(x, ast.Call) and astu.callee_name(x) == "hasattr" and len(x.args) == 2}
+        sn = (astu.first_param(hfn) or "self") if cls_node is not None else None
+        class_params = set()
+        for a_ in hfn.args.posonlyargs + hfn.args.args + hfn.args.kwonlyargs:
+            txt = ast.unparse(a_.annotation) if a_.annotation is not None else ""
+            if txt.split("[")[0].split(".")[-1] in ("Type", "type") or txt in ("Interface", "'Interface'", "Implementation"):
+                class_params.add(a_.arg)
+        for x in astu.walk_no_nested(hfn):
+            if not (isinstance(x, ast.Attribute) and x.attr in ("__name__", "__qualname__") and isinstance(x.ctx, ast.Load)):
                 continue
-            reach = astu.reachable_self_methods(ci, [mn])
-            for hn, hfn in reach.items():
-                guarded = {ast.unparse(x.args[0]) for x in ast.walk(hfn) if isinstance(x, ast.Call) and astu.callee_name(x) == "hasattr" and len(x.args) == 2}
-                sn = astu.first_param(hfn) or "self"
-                for x in astu.walk_no_nested(hfn):
-                    if isinstance(x, ast.Attribute) and x.attr in ("__name__", "__qualname__") and isinstance(x.ctx, ast.Load):
-                        base = ast.unparse(x.value)
-                        if base in (sn, "cls", f"{sn}.__class__", f"type({sn})") or base in guarded:
-                            continue
-                        # an element of a collection of classes (instances of a metaclass of the library) always has a name
-                        is_class_elem = False
-                        for y in ast.walk(hfn):
-                            if isinstance(y, (ast.comprehension, ast.For)) and isinstance(y.target, ast.Name) and y.target.id == base \
-                                    and isinstance(y.iter, ast.Attribute) and isinstance(y.iter.value, ast.Name) and y.iter.value.id == sn:
-                                for kc in ci.mro():
-                                    ann = kc.annotations.get(y.iter.attr)
-                                    if ann is not None:
-                                        for z in ast.walk(ann):
-                                            if isinstance(z, (ast.Name, ast.Constant)):
-                                                nm_ = z.id if isinstance(z, ast.Name) else (z.value if isinstance(z.value, str) else "")
-                                                c2 = repo.resolve_name(kc.module, nm_.strip("'\"")) if nm_ else None
-                                                if c2 and c2[0] == "class" and "type" in [b for k2 in c2[1].mro() for b in k2.external_bases()]:
-                                                    is_class_elem = True
-                        if is_class_elem:
-                            continue
-                        res.add(f"{ci.qualname}.{hn}:reads {base}.{x.attr} unguarded while building the repr", False, ci.module.relpath, x.lineno,
-                                f"{base}.{x.attr}: partial objects, callable instances and operator helpers have no {x.attr}; the AttributeError replaces the "
-                                "message being built", nec)
+            n_names += 1
+            base = ast.unparse(x.value)
+            if base in (sn, "cls", "mcs") or base.endswith(".__class__") or base.startswith("type(") or base in guarded or base in class_params:
+                continue
+            # an element of a collection of classes (instances of a metaclass of the library) always has a name
+            is_class_elem = False
+            if ci is not None:
+                for y in ast.walk(hfn):
+                    if isinstance(y, (ast.comprehension, ast.For)) and isinstance(y.target, ast.Name) and y.target.id == base \
+                            and isinstance(y.iter, ast.Attribute) and isinstance(y.iter.value, ast.Name) and y.iter.value.id == sn:
+                        for kc in ci.mro():
+                            ann = kc.annotations.get(y.iter.attr)
+                            if ann is not None:
+                                for z in ast.walk(ann):
+                                    if isinstance(z, (ast.Name, ast.Constant)):
+                                        nm_ = z.id if isinstance(z, ast.Name) else (z.value if isinstance(z.value, str) else "")
+                                        c2 = repo.resolve_name(kc.module, nm_.strip("'\"")) if nm_ else None
+                                        if c2 and c2[0] == "class" and "type" in [b for k2 in c2[1].mro() for b in k2.external_bases()]:
+                                            is_class_elem = True
+            # a function defined in this very function (its name is set right there)
+            local_defs = {d.name for d in ast.walk(hfn) if isinstance(d, ast.FunctionDef) and d is not hfn}
+            if is_class_elem or base in local_defs:
+                continue
+            # inside try/except AttributeError
+            pm_ = astu.parent_map(hfn)
+            cur_, in_try = x, False
+            while id(cur_) in pm_:
+                up_ = pm_[id(cur_)]
+                if isinstance(up_, ast.Try) and any(cur_ is b_ for b_ in up_.body) and any(
+                        h_.type is None or "AttributeError" in ast.unparse(h_.type) or ast.unparse(h_.type) in ("Exception", "BaseException") for h_ in up_.handlers):
+                    in_try = True
+                cur_ = up_
+            if in_try:
+                continue
+            res.add(f"{q}:reads {base}.{x.attr} unguarded while building the repr", False, m.relpath, x.lineno,
+                    f"{base}.{x.attr}: partial objects, callable instances, operator helpers and typing constructs have no {x.attr}; the AttributeError replaces the "
+                    "message being built", nec)
+    if n_names < 8:
+        raise AnalysisError(f"R-OH: only {n_names} reads of __name__/__qualname__ found")
     if n < 2:
         raise AnalysisError(f"R-OH: only {n} classes keep hashable aliases (Switch and Overloaded expected)")
     res.count("classes", n)
